@@ -35,22 +35,22 @@ SeqOpts(o) == [snake |-> o.snake, keep |-> o.keepSpaces, escdec |-> o.escDec, ca
 \* fixed probe inputs (abstract): a document exercising every decoder register, a Map exercising every encoder register
 N(l) == NM("", l)
 ProbeDoc == XE(N(<<"D", "-", "a">>), <<[nm |-> N(<<"x", "-", "Y">>), v |-> <<"1">>], [nm |-> N(<<"B">>), v |-> <<" ", "&">>]>>,
-               <<XT(<<"\n">>), XE(N(<<"e", "-", "f">>), <<>>, <<XT(<<" ", "7", " ">>)>>), XE(N(<<"e", "-", "f">>), <<>>, <<XT(<<"<", "v">>)>>), XE(N(<<"g">>), <<>>, <<>>),
+               <<XT(<<"\n">>), XE(N(<<"e", "-", "f">>), <<>>, <<XT(<<" ", "7", " ">>)>>), XE(N(<<"e", "-", "f">>), <<>>, <<XT(<<"<", "v">>)>>), XE(N(<<"g">>), <<>>, <<>>), XE(N(<<"s">>), <<>>, <<XT(<<" ", " ">>)>>),      \* (s: a run of blanks, a value under keep-spaces)
                  XE(N(<<"h">>), <<[nm |-> N(<<"k">>), v |-> <<"q">>]>>, <<XT(<<"t", "r", "u", "e">>)>>), XT(<<"\n">>)>>)
 ProbeSeqDoc == XE(NM("p", <<"A">>), <<[nm |-> N(<<"z", "-", "z">>), v |-> <<"1", "&">>]>>,
                   <<XC(<<"c">>), XE(N(<<"B", "-", "c">>), <<>>, <<XT(<<" ", "v", " ">>)>>), XE(N(<<"d">>), <<>>, <<XT(<<"<", "7">>)>>),
-                    XE(N(<<"_", "e">>), <<>>, <<XT(<<"1">>)>>)>>)      \* (a tag that begins with a character some attribute prefixes consist of: the sequence codec knows no attribute prefix)
+                    XE(N(<<"_", "e">>), <<>>, <<XT(<<"1">>)>>), XE(N(<<"s">>), <<>>, <<XT(<<" ", " ">>)>>)>>)      \* (a tag that begins with a character some attribute prefixes consist of: the sequence codec knows no attribute prefix)
 ProbeMap == VM(<<"d", "o", "c">> :> VM((<<"-", "x">> :> VS(<<"1">>)) @@ (<<"@", "y">> :> VS(<<"2">>)) @@ (<<"#", "t", "e", "x", "t">> :> VS(<<"t", "<">>))
                   @@ (<<"_", "t", "e", "x", "t">> :> VS(<<"u">>)) @@ (<<"e">> :> VL(<<VS(<<"a">>), VS(<<>>), VM(<<"-", "k">> :> VS(<<"v">>))>>)) @@ (<<"g">> :> EmptyMap)
-                  @@ (<<"E">> :> VS(<<"w">>)) @@ (<<"-", "X">> :> VS(<<"3">>)) @@ (<<"_", "_", "n">> :> VF(<<"7">>))))     \* (a NUMBER under a key that is an attribute under the prefix "__")      \* (keys that differ in case only: byte order whatever the key-folding registers hold)
+                  @@ (<<"E">> :> VS(<<"w">>)) @@ (<<"-", "X">> :> VS(<<"3">>)) @@ (<<"_", "_", "n">> :> VF(<<"7">>)) @@ (<<"_", "_", "_", "u">> :> VS(<<"4">>))))     \* (a NUMBER under a key that is an attribute under the prefix "__")      \* (keys that differ in case only: byte order whatever the key-folding registers hold)
 \* (attribute prefixes of any length; key prefixes are one character, the property's quantifier)
 CodecDomain(o) == o.attrPrefix # o.keyPrefix
 DefaultCastRegs(o) == ~o.castInt /\ o.castFloat /\ o.castBool /\ ~o.skipTag
 
 \* probe inputs of the query side (plain-string values of MxjPath)
-ProbeLeafMap == VM("doc" :> VM(("-x" :> VS("1")) @@ ("@y" :> VS("2")) @@ ("#text" :> VS("t")) @@ ("_text" :> VS("u"))
+ProbeLeafMap == VM("doc" :> VM(("-x" :> VS("1")) @@ ("@y" :> VS("2")) @@ ("#text" :> VS("t")) @@ ("_text" :> VS("u")) @@ ("___u" :> VS("4"))      \* (___u: under the prefix "__" the attribute "_u" -- a name that begins with a character of the prefix)
                    @@ ("e" :> VL(<<VS("a"), VM(("-k" :> VS("v")) @@ ("#text" :> VS("w"))), VS("b"), VM("f" :> VL(<<VS("c"), VS("d")>>))>>))))
-LeafKeys == {"-x", "@y", "#text", "_text", "-k", "e", "f", "doc"}
+LeafKeys == {"-x", "@y", "#text", "_text", "-k", "e", "f", "doc", "___u"}
 AttrKeysOf(o) == {k \in LeafKeys : o.attrPrefix # "" /\ Len(k) >= Len(o.attrPrefix) /\ SubSeq(k, 1, Len(o.attrPrefix)) = o.attrPrefix}
 \* list members told apart by "id"; keys and values that contain the OTHER separator
 ProbeQMap == VM("a" :> VL(<<VM(("id" :> VS("1")) @@ ("c" :> VS("x"))),
@@ -77,7 +77,7 @@ UpdResult(o, s) == LET ps == SplitOn(s, o.fieldSep) IN
                    ELSE LET nv == IF Len(ps) = 2 THEN VS(Join(ps[2])) ELSE IF TypeName(ps[3]) = "bool" THEN VB("true") ELSE VF(NumCanon(ps[2]))
                             r == UpdateOp(ProbeQMap, Join(ps[1]), nv, <<"a">>, {}) IN [ok |-> TRUE, c |-> r.c, post |-> r.n]
 \* Elements / Attributes of the node "doc" of the leaf probe: keys in byte order, split by the attribute prefix
-StructKeys == <<"#text", "-x", "@y", "_text", "e">>
+StructKeys == <<"#text", "-x", "@y", "___u", "_text", "e">>
 IsAttrK(o, k) == o.attrPrefix # "" /\ Len(k) >= Len(o.attrPrefix) /\ SubSeq(k, 1, Len(o.attrPrefix)) = o.attrPrefix
 StripPfx(o, k) == SubSeq(k, Len(o.attrPrefix) + 1, Len(k))
 \* NewMapJson of {"n":1.50,"s":"x"}: the number as float64, or its text under JsonUseNumber
